@@ -39,6 +39,9 @@ ENUM_KINDS = [
     ("mcs_job", {"kind": "hang"}),
     ("frag_job", {"kind": "timeout"}),
     ("frag_job", {"kind": "exception"}),
+    ("mcs_job", {"kind": "timeout", "lines": 0, "wake_in": "get_largest_condition"}),
+    ("mcs_job", {"kind": "timeout", "lines": 4, "wake_in": "find_graph_dict"}),
+    ("mcs_job", {"kind": "timeout", "lines": 0, "wake_in": "run"}),
 ]
 
 
@@ -56,7 +59,7 @@ def gen_plan(base_seed, i, tier):
 def extra_plans(tier, base_seed):
     plans = []
     if tier == "quick":
-        sel = [(0, 0, 8), (0, 4, 4)]
+        sel = [(0, 0, 8), (0, 4, 4), (1, 5, 8)]
     else:
         sel = [(b, k, 16) for b in range(len(ENUM_BATCHES)) for k in range(len(ENUM_KINDS))]
     for b, k, nch in sel:
@@ -112,6 +115,28 @@ def judge(rows_in, res, twin, threshold, where=""):
     return vs, True
 
 
+def _reach_probes(res):
+    """Rare-state probes computed from the tapped search results (reach measurement, not an oracle)."""
+    pr = res.setdefault("probes", {})
+    for row, t in zip(res.get("rows") or [], res.get("tap_rows") or []):
+        if not isinstance(t, dict) or row["solved_by"] in ("input-balanced", "rule-based"):
+            continue
+        mcs = t.get("mcs")
+        hit = res.get("affected_all") or row["input_reaction"] in set(res.get("affected") or [])
+        if mcs is None and hit:
+            pr["all_conditions_failed"] = pr.get("all_conditions_failed", 0) + 1
+        if isinstance(mcs, dict):
+            issue = mcs.get("issue") or ""
+            if "timeout" in issue and (mcs.get("mcs_results") or []):
+                pr["timed_out_entry_selected"] = pr.get("timed_out_entry_selected", 0) + 1
+            if hit and issue == "" and not (mcs.get("smiles") or []) and (mcs.get("sorted_reactants") or []):
+                pr["frag_issue_overwritten"] = pr.get("frag_issue_overwritten", 0) + 1
+            if hit and row["solved"]:
+                pr["affected_row_still_solved"] = pr.get("affected_row_still_solved", 0) + 1
+        if hit and not row["solved"]:
+            pr["affected_row_declined"] = pr.get("affected_row_declined", 0) + 1
+
+
 def _nofault(sim):
     s = common.clone(sim)
     s.pop("faults", None)
@@ -128,8 +153,9 @@ def execute(plan):
     out["summary"].append(common.run_summary(twin))
     thr = plan["config"].get("threshold", 0)
     if plan["kind"] == "faulty":
-        res = runner.run_once({"rows": rows_in, "config": plan["config"], "sim": plan["sim"]})
+        res = runner.run_once({"rows": rows_in, "config": plan["config"], "sim": plan["sim"], "tap": True})
         out["runs"] += 1
+        _reach_probes(res)
         out["summary"].append(common.run_summary(res))
         vs, _ = judge(rows_in, res, twin, thr)
         out["violations"] = vs
